@@ -117,5 +117,10 @@ func ReleaseRuntimeContext(ctx *RuntimeContext) {
 	ctx.KeepRefs = ctx.KeepRefs[:0]
 	// the caller's context belongs to the finished call only
 	ctx.Option.Context = nil
+	// and so do the writers and the colour scheme its options named: a later call
+	// that asks for Debug() without naming them must not write to (or close) these
+	ctx.Option.DebugOut = nil
+	ctx.Option.DebugDOTOut = nil
+	ctx.Option.ColorScheme = nil
 	runtimeContextPool.Put(ctx)
 }
